@@ -1,0 +1,10 @@
+//go:build verif
+
+// Verification hooks (property C13): thin exported wrappers around unexported functions,
+// compiled only with `-tags verif`. Add-only; with the tag off nothing changes.
+package sharedport
+
+import "io"
+
+// VerifReadPassSockHeader exposes readPassSockHeader.
+func VerifReadPassSockHeader(r io.Reader) error { return readPassSockHeader(r) }
